@@ -29,6 +29,7 @@ import (
 	"strings"
 
 	"github.com/goplus/llgo/internal/env"
+	"github.com/goplus/llgo/internal/goembed"
 	"github.com/goplus/llgo/internal/packages"
 	gopackages "golang.org/x/tools/go/packages"
 )
@@ -172,6 +173,16 @@ func (c *context) collectPackageInputs(m *manifestBuilder, pkg *aPackage) error 
 			return fmt.Errorf("digest other files: %w", err)
 		}
 		m.pkg.OtherFiles = otherList
+	}
+
+	// Files embedded with //go:embed: their contents become part of the
+	// compiled package.
+	if len(p.Syntax) > 0 && c.conf != nil && c.conf.Fset != nil {
+		embedMap, err := goembed.LoadDirectives(c.conf.Fset, p.Syntax)
+		if err != nil {
+			return fmt.Errorf("load go:embed directives: %w", err)
+		}
+		m.pkg.EmbedFiles = digestEmbedFiles(embedMap)
 	}
 
 	// Rewrite vars
